@@ -45,11 +45,11 @@ finding("C02-double-negation", "C02", ["C01", "C07"],
  "unary minus applied to an expression whose SQL starts with a minus, directly or after inlining a computed column (hazard neg_neg)",
  "`-(-id)` is emitted as `--id`, which starts an SQL comment: `from t1 | select {c = -(-id)}` -> `SELECT --id AS c FROM t1` (syntax error / rest of the line swallowed).",
  {"source": "from t1 | select {c = -(-id)}", "arity": 1, "rows": [[I(1)],[I(2)],[I(3)]]})
-finding("C07-offset-without-limit", "C07", ["C01", "C03"],
+finding("C07-offset-without-limit", "C07", ["C01", "C03", "C06"],
  "`take a..` with a > 1 and no upper bound under a dialect that needs LIMIT before OFFSET (sqlite) (hazard open_take)",
  "`from t1 | select {id} | sort id | take 2..` compiles for sqlite to `... ORDER BY id OFFSET 1`, which SQLite rejects (near \"OFFSET\": syntax error); SQLite needs `LIMIT -1 OFFSET 1`.",
  {"source": "from t1 | select {id} | sort id | take 2..", "arity": 1, "rows": [[I(2)],[I(3)]], "ordered": True})
-finding("C05-wildcard-helper-leak", "C05", ["C01"],
+finding("C05-wildcard-helper-leak", "C05", ["C01", "C06", "C09"],
  "helper column (computed sort key, ROW_NUMBER of take-in-group, windowed filter operand, sort key dropped by a later select) in a query whose projection is a wildcard, on a dialect without EXCLUDE (hazard wild_helpers)",
  "`from t1 | sort {(a * -1), id}` compiles to `SELECT *, a * -1 AS _expr_0 FROM t1 ORDER BY _expr_0, id`: the result has the extra column _expr_0 (the code logs a warning and proceeds).",
  {"source": "from t1 | sort {(a * -1), id}", "arity": 3, "rows": [[I(3),I(2),N],[I(1),I(1),I(10)],[I(2),I(1),I(20)]], "ordered": True})
@@ -67,7 +67,7 @@ finding("C04-first-last-frame", "C04", ["C01"],
  "first/last never receive a frame clause: `sort id | derive {l = last id}` -> `LAST_VALUE(id) OVER (ORDER BY id)` whose SQL default frame ends at the current row (value = current row, not the last of the partition); `window rows:-3..1 (derive {l = last id})` also has no ROWS clause.",
  {"source": "from t1 | select {id, b} | sort id | derive {l = last id}", "arity": 3,
   "rows": [[I(1),I(10),I(3)],[I(2),I(20),I(3)],[I(3),N,I(3)]], "ordered": True})
-finding("C07-sorted-cte-order-by-scope", "C07", ["C01", "C03"],
+finding("C07-sorted-cte-order-by-scope", "C07", ["C01", "C03", "C06"],
  "a let-table / sub-pipeline that ends with a sort in effect and is referenced more than once or joined (hazard sorted_let)",
  "The sort of a CTE is re-emitted at the end of the main query with the original table qualifier: `let l0 = (from t1 | select {id, a, b} | sort {id, b})  from l0 | select {id} | join r0 = l0 (l0.id == r0.id) | select {l0.id, c0 = r0.id, a}` ends in `ORDER BY t1.id, t1.b` although t1 only exists inside the CTE (no such column).",
  {"source": "let l0 = (from t1 | select {id, a, b} | sort {id, b})\nfrom l0 | select {id} | join r0 = l0 (l0.id == r0.id) | select {l0.id, c0 = r0.id, a}", "arity": 3,
@@ -215,6 +215,10 @@ panic_finding("anchor-no-entry", "prqlc/src/sql/pq/anchor.rs", "no entry found f
  "RQ JSON with a dangling column id", "rq_to_sql on RQ JSON")
 panic_finding("pq-gen-query-unwrap", "prqlc/src/sql/pq/gen_query.rs", "called `Option::unwrap()` on a `None` value",
  "RQ JSON whose From names a table id that is not declared", "rq_to_sql on RQ JSON")
+panic_finding("bad-rq-ids", "prqlc/src/sql/gen_expr.rs", "bad RQ ids",
+ "RQ JSON whose expression refers to a column id no table or compute defines", "rq_to_sql on RQ JSON")
+panic_finding("gen-expr-result-unwrap", "prqlc/src/sql/gen_expr.rs", "called `Result::unwrap()` on an `Err` value",
+ "RQ JSON in which an operator is given operands of a shape its template cannot unpack", "rq_to_sql on RQ JSON")
 panic_finding("ident-unwrap", "prqlc-parser/src/parser/pr/ident.rs", "called `Option::unwrap()` on a `None` value",
  "PL JSON with an empty Ident path: {\"Ident\": []}", "json::to_pl")
 panic_finding("codegen-ast-unwrap", "prqlc/src/codegen/ast.rs", "called `Option::unwrap()` on a `None` value",
@@ -251,9 +255,9 @@ finding("C05-result-column-order-differs-from-frame", "C05", ["C01"],
  "the result has the frame's columns (same arity, same names) in a different order",
  "After `group` with a non-aggregating pipeline / `select !{..}` over a frame that mixes columns of input relations with computed columns, the SQL projection lists the relations' columns first and the computed ones afterwards (construct_tuple_from_module sorts name-space entries by an `order` that counts inputs and columns on different scales), so the result column order differs from the frame (RQ relation.columns); before the fix of the tie-break the order even varied between runs.",
  None)
-finding("C11-column-order-hash-dependent", "C11", [],
- "two outputs for the same call that consist of the same tokens in a different order (column lists)",
- "see the `fixed:` entries: resolved by the tie-break fix; kept for the record",
+finding("C11-order-by-alias-choice-hash-dependent", "C11", [],
+ "two outputs for the same call that are equal once the key lists of their ORDER BY clauses are blanked",
+ "When the column a sort refers to is visible under several names (`select {c0 = id, id, c1 = id} | sort {id, (c0 * 2)}`), the name used in the emitted ORDER BY (`ORDER BY c0, _expr_0` vs `ORDER BY c1, _expr_0`) is whichever alias a hash-map iteration in the sort post-processing meets first: the SQL text differs between runs (the rows do not).",
  None)
 finding("C11-error-text-hash-dependent", "C11", [],
  "two error outputs for the same call that consist of the same tokens in a different order",
@@ -280,8 +284,33 @@ finding("C09-helper-column-name-equals-user-column", "C09", [],
  "`select {_expr_1, limit = A % 1, _expr_0 = 0 ** 0} | filter _expr_1 + 1 != limit + 3 | filter (rank limit) > 2`: the windowed filter needs a helper column; the compiler names it `_expr_1`, which is the user's column: the emitted `WHERE _expr_1 > 2` filters on the user's column and the RANK() is never computed.",
  None)
 
+finding("C08-quote-sequences-treated-as-already-escaped", "C08", [],
+ "a string literal whose value contains two consecutive single quotes or a backslash followed by a single quote",
+ "String literals are emitted through sqlparser's Display for SingleQuotedString, which leaves a quote alone when it looks already escaped. "
+ "The two-character value made of two single quotes is emitted as two quotes, i.e. ONE quote: `select {v = \" ''\"}` -> `SELECT ' '''` returns a space and one quote. "
+ "The value backslash + quote is emitted with the quote not doubled: under SQLite / standard SQL the literal ends there "
+ "(`select {v = \"1\\\"\\\\'x\"}` -> SQLite: unrecognized token): the content of a literal alters the statement (the SQL-injection boundary).",
+ None)
+finding("C08-backslash-in-backslash-escaping-dialects", "C08", [],
+ "a string literal containing a backslash, under a dialect whose tokenizer treats backslash as an escape character (mysql, bigquery, clickhouse, snowflake ...): the string token does not unescape to the value, or the token structure changes",
+ "Backslashes are emitted verbatim for every dialect; under MySQL-style escaping a backslash swallows the next character and a trailing backslash un-terminates the literal. The book's strings page admits that escaping is not dialect-aware.",
+ None)
+finding("C08-bigquery-quote-doubling", "C08", [],
+ "dialect bigquery, a string literal containing a single quote",
+ "Quotes are escaped by doubling for every dialect. BigQuery does not accept doubled quotes (it needs a backslash) and reads three quotes in a row as the start of a triple-quoted string: a value that starts with a quote is emitted as three quotes in a row followed by the rest, an unterminated literal under BigQuery lexical rules.",
+ None)
+finding("C06-let-sort-not-applied-to-windows", "C06", ["C03"],
+ "a pipeline prefix that ends with a sort in effect is named with let / into and the continuation uses a window function (rank, row_number, lag, running sum ...)",
+ "`from t2 | select {id, f, x} | sort {-x, -id} | derive {c1 = (rank id)}` ranks in the sort order (`RANK() OVER (ORDER BY x DESC, id DESC)`); after `... | sort {-x, -id} | into z` + `from z | derive {c1 = (rank id)}` the window has no ORDER BY (`RANK() OVER ()`, every row gets rank 1) although the final ORDER BY is still propagated: the sort of a let-table is carried to the end of the query but not to window functions.",
+ None)
+finding("C08-nul-character", "C08", [],
+ "a string literal containing U+0000",
+ "A NUL character is emitted verbatim inside the SQL text; SQLite's C API truncates the statement / the value at it.",
+ None)
+
 k = json.load(open(os.path.join(V, "known_findings.json")))
-keep = [f for f in k["findings"] if f["id"] not in {x["id"] for x in FINDINGS}]
+REMOVED = {"C11-column-order-hash-dependent"}  # repaired by a fix: commit (see "fixed")
+keep = [f for f in k["findings"] if f["id"] not in {x["id"] for x in FINDINGS} and f["id"] not in REMOVED]
 k["findings"] = keep + FINDINGS
 json.dump(k, open(os.path.join(V, "known_findings.json"), "w"), indent=1, ensure_ascii=False)
 print(len(k["findings"]), "findings")
